@@ -6,7 +6,10 @@ under src/chaos_shim.c (seeded yields/sleeps around every mutex/condvar operatio
 TZ, locale, umask, cwd, HOME, fake wall clock and stdout kinds; every image must be byte-identical and equal to the
 image written by the serial (NO_THREAD_IMPL) build.
 Layer 2: the same inputs with the ThreadSanitizer build; a data race report inside project code is a violation.
-(The exhaustive-schedule layer on the controlled scheduler lives in C09's harness.)
+Layer 3: the block processor itself (sqfs_block_processor_* on an in-memory file, src/vsched.cc "B:" programs) under the
+controlled scheduler of C09: every schedule without preemption and with one preemption for small programs, random schedules
+for larger ones; each schedule must read back every file byte-exact and reproduce the digest of (output bytes, inodes,
+fragment table) of the first schedule.
 """
 import os, hashlib, tempfile
 from hypothesis import strategies as st
@@ -20,7 +23,8 @@ PROP = "C02"
 def cases(draw, tier="quick"):
     kind = draw(st.sampled_from(["gen_dir", "gen_file", "t2s"]))
     B = 4096
-    o = dict(comp=draw(st.sampled_from(["gzip", "zstd", "lz4", "xz", "lzma"])), X=None, B=B, T=draw(st.booleans()), e=draw(st.booleans()), j=1, Q=None,
+    comp = draw(st.sampled_from(["gzip", "gzip", "zstd", "lz4", "xz", "lzma"]))
+    o = dict(comp=comp, X=draw(st.sampled_from(packlib.COMP_EXTRA[comp])), B=B, T=draw(st.booleans()), e=draw(st.booleans()), j=1, Q=None,
              devblk=None, defaults={}, source_date_epoch=draw(st.sampled_from([None, 1234567])), xattr_styles=[0], quote_all=False, loc_style=0, packdir_mode=1)
     case = dict(kind=kind, opts=o)
     nbig = draw(st.integers(2, 8))
@@ -30,7 +34,12 @@ def cases(draw, tier="quick"):
         files.append(("big%02d" % i, (draw(st.sampled_from(["rand", "text", "mix"])), draw(st.integers(0, 5)), draw(st.integers(2, 12)),
                                       draw(st.integers(0, B - 1))) + (([draw(st.integers(0, 3)) for _ in range(3)],) if False else ())))
     for i in range(nsmall):
-        files.append(("sm%03d" % i, (draw(st.sampled_from(["rand", "text"])), draw(st.integers(0, 12)), 0, draw(st.integers(1, B - 1)))))
+        if i >= 2 and draw(st.sampled_from([False, False, False, True])):
+            # an exact duplicate of an earlier tail: found in the fragment block being filled, in one in flight, or in one
+            # that has to be read back from the output file - which of these depends on backlog and timing
+            files.append(("sm%03d" % i, files[nbig + draw(st.integers(0, i - 1))][1]))
+        else:
+            files.append(("sm%03d" % i, (draw(st.sampled_from(["rand", "rand", "text"])), draw(st.integers(0, 12)) + 100 * i, 0, draw(st.integers(1, B - 1)))))
     fixed = []
     for name, rec in files:
         rec = tuple(rec)
@@ -86,7 +95,7 @@ def run_variant(ctx, d, variant, j, Q, chaos, tz, loc, umask, ftime, stdout_kind
         cmd = [vcommon.tool(variant, "gensquashfs")] + clean
         stdin = None
     else:
-        cmd = [vcommon.tool(variant, "tar2sqfs"), "-q", "-c", o["comp"], "-b", str(o["B"])] + (["-T"] if o["T"] else []) + (["-e"] if o["e"] else [])
+        cmd = [vcommon.tool(variant, "tar2sqfs"), "-q", "-c", o["comp"], "-b", str(o["B"])] + (["-X", o["X"]] if o.get("X") else []) + (["-T"] if o["T"] else []) + (["-e"] if o["e"] else [])
         stdin = ctx["stdin"]
     if j is not None:
         cmd += ["-j", str(j)]
@@ -173,6 +182,75 @@ def strat(tier, opts):
     return cases(tier)
 
 
+# ------------------------------------------------------------------ layer 3: the block processor under the controlled scheduler
+SCHED_PROGS = [
+    "B:5000a,100b,100b",                        # block + tail, duplicate tails
+    "B:9000a,3000b,3000c,3000b",                # two blocks + tail; tails fill a fragment block; duplicate of a tail in a finished block
+    "B:4096a,4096a,4096z,100c",                 # duplicate block, sparse block
+    "B:2000a,2000b,2000c,2000a,2000d,2000a",    # three fragment blocks, duplicates across them
+    "B:8192A,100b,8192A,100b",                  # duplicate block runs (compressible)
+    "B:4097a!1,3000B,4097a,3000B!4",            # per-file flags: dont_compress, dont_fragment
+]
+
+
+def sched_jobs(tier, seed, binp):
+    import random
+    J = []
+    lim = 100 if tier == "quick" else 1800
+    cap0 = 6000 if tier == "quick" else 200000
+    cap1 = 9000 if tier == "quick" else 600000
+    for prog in SCHED_PROGS:
+        for W, N in ((2, 3), (3, 4)):
+            J.append((binp, "dfs", W, N, 0, prog, 0, cap0, lim))    # every schedule without preemption (choices at blocking points)
+        J.append((binp, "dfs", 2, 3, 0, prog, 1, cap1, lim))        # one preemption
+    rng = random.Random(seed)
+    for i in range(8 if tier == "quick" else 32):
+        nf = rng.randint(4, 9)
+        ents = []
+        for k in range(nf):
+            size = rng.choice([100, 1500, 2000, 3000, 4095, 4096, 4097, 6000, 8192, 9000])
+            tag = rng.choice("abcdABz")
+            if ents and rng.random() < 0.3:
+                ents.append(rng.choice(ents))
+            else:
+                ents.append("%d%s%s" % (size, tag, rng.choice(["", "", "", "!1", "!4", "!8", "!16"])))
+        J.append((binp, "rand", rng.choice([2, 3, 4]), rng.choice([3, 4, 6, 10]), 0, "B:" + ",".join(ents), seed * 100 + i, 1500 if tier == "quick" else 40000, lim))
+    return J
+
+
+def sched_layer(tier, seed, res):
+    import c09, json
+    binp = c09.harness()
+    outs = vcommon.pmap(c09.run_job, sched_jobs(tier, seed, binp), 16)
+    total = 0
+    complete = []
+    for o in outs:
+        sm = o["summ"] or {}
+        n = sm.get("executions", 0)
+        total += n
+        res.add_class("sched_%s_W%d" % (("bound%d" % o["a"]) if o["mode"] == "dfs" else "random", o["W"]), n)
+        if o["mode"] == "dfs" and sm.get("complete"):
+            complete.append("%s W=%d backlog=%d preemption bound %d: all %d schedules" % (o["prog"], o["W"], o["N"], o["a"], n))
+        if o["fail"]:
+            case = dict(sched=True, W=o["W"], N=o["N"], prog=o["prog"], mode=o["mode"], a=o["a"], fail=o["fail"][:3000])
+            try:
+                fj = json.loads(o["fail"])
+                case["choices"] = [t[0] for t in fj.get("trace", [])]
+                what = "%s: %s" % (fj.get("result"), fj.get("msg"))
+            except Exception:
+                what = o["fail"][:200]
+            res.violations.append(("block processor W=%d backlog=%d %s under the controlled scheduler: %s" % (o["W"], o["N"], o["prog"], what),
+                                   vcommon.save_replay(PROP, case, what)))
+        elif o["rc"] not in (0, -99):
+            res.violations.append(("vsched harness exit %s for %s" % (o["rc"], o["prog"]), vcommon.save_replay(PROP, dict(sched=True, job=[str(x) for x in list(o.items())[:8]]), "harness")))
+    res.evaluations += total
+    # a schedule is non-trivial when it is not the first (reference) one of its program
+    res.nt_count = len(res.nontrivial) + max(0, total - len(outs))
+    res.extra["controlled_scheduler_executions"] = total
+    res.extra["controlled_scheduler_complete"] = complete[:40]
+    return total
+
+
 def main(tier, seed, scale=1.0):
     vbuild.build("plain")
     vbuild.build("serial")
@@ -184,17 +262,45 @@ def main(tier, seed, scale=1.0):
     vcommon.run_corpus(PROP, check_case, opts, res)
     for d in vcommon.run_shards("c02", "check_case", "strat", n, seed, tier, opts):
         res.merge_shard(d)
+    if scale >= 0.2:
+        sched_layer(tier, seed, res)
     res.rule = ("Hypothesis inputs (2-8 multi-block files, 3-40 small files -> several fragment blocks, duplicates; directory, pack file and tar "
                 "input; 5 compressors) x 5-9 variants of (-j 1..64/default, -Q 1..10^4/default, seeded schedule perturbation around every mutex "
                 "and condvar operation, TZ, locale, umask, HOME/cwd, fake wall clock) + one ThreadSanitizer run; non-trivial = >=4 data blocks, "
                 ">=1 fragment block and >=3 distinct (-j,-Q,perturbation) combinations; oracle = bytes equal to the NO_THREAD_IMPL serial build")
-    res.assumptions = ["real-thread perturbation samples schedules (the systematic schedule exploration is in C09's controlled-scheduler harness)",
+    res.rule += ("; layer 3: block processor programs (blocks, tails, duplicates, sparse, per-file flags) under the controlled scheduler - all "
+                 "schedules with 0 and 1 preemptions for 6 programs x 2-3 workers, random schedules for generated programs; oracle = read-back "
+                 "byte-exact and digest of output/inodes/fragment table equal to the first schedule's")
+    res.assumptions = ["real-thread perturbation samples schedules; the controlled scheduler interleaves at mutex/condvar operations of the pool (worker callbacks run atomically)",
                        "SOURCE_DATE_EPOCH and the command line are inputs and held fixed"]
     res.extra["min_evaluations"] = n // 3
     return res
 
 
+def replay_sched(path, c):
+    import c09, subprocess, re
+    binp = c09.harness()
+    res = Result(PROP)
+    if "choices" not in c:
+        return res
+    base = [binp, "run", str(c["W"]), str(c["N"]), "0", c["prog"]]
+    ref = subprocess.run(base + ["0"], stdout=subprocess.PIPE, stderr=subprocess.PIPE, timeout=60)
+    m = re.search(rb'"result": "ok", "msg": "([0-9a-f]+)"', ref.stdout)
+    if not m:
+        res.violations.append(("reference schedule fails: " + ref.stdout.decode(errors="replace")[:300], path))
+        return res
+    p = subprocess.run(base + ["-1"] + [str(x) for x in c["choices"]], stdout=subprocess.PIPE, stderr=subprocess.PIPE, timeout=60,
+                       env=dict(os.environ, VSCHED_EXPECT=m.group(1).decode()))
+    res.evaluations = 1
+    if b'"result": "ok"' not in p.stdout:
+        res.violations.append((p.stdout.decode(errors="replace")[:300], path))
+    return res
+
+
 def replay(path):
+    c = vcommon.load_replay(path)["case"]
+    if isinstance(c, dict) and c.get("sched"):
+        return replay_sched(path, c)
     vbuild.build("plain")
     vbuild.build("serial")
     vbuild.build("tsan")
